@@ -217,6 +217,8 @@ class Interp:
             if isinstance(v, Opaque):
                 raise Unsupported('truth of opaque %s' % v.tag)
             return True
+        if isinstance(v, collections.deque):
+            self.ctx.event('deque.read', id(v), tuple(id(l) for l in self.ctx.held))
         return bool(v)
 
     def to_bool_value(self, v):
